@@ -546,7 +546,7 @@ impl Zoo {
             dns: sockets.add(dns_sock),
             dhcp: if cfg.med == Med::Eth && cfg.v4().is_some() { Some(sockets.add(dhcpv4::Socket::new())) } else { None },
         };
-        host.sockets = sockets;
+        *host.sockets = sockets;
         {
             let mut l = log.lock().unwrap();
             l.cfg = format!("{:?}", cfg);
